@@ -613,18 +613,22 @@ class PathEnum:
                     hit = [tb for (l2, tb) in outcomes if l2 == lab]
                     if hit:
                         stack.append((hit[0], env, consts, decisions, visits, path, discr_src, frames))
-                    elif ow_live and (lab.startswith("*") or lab not in explicit):
-                        # a single remaining variant decided earlier as '*X' or as 'X'
-                        if lab.startswith("*"):
-                            labs = set(lab[1:].split("|")) if len(lab) > 1 else set()
-                            if labs and labs & explicit:
-                                # earlier 'rest' decision overlaps explicit arms here: fork over them
-                                for l2, tb in outcomes:
-                                    if l2 in labs and tb in succs:
-                                        stack.append((tb, env, consts, decisions + [(key, l2)], visits, path, discr_src, frames))
-                                if labs - explicit:
-                                    stack.append((ow, env, consts, decisions, visits, path, discr_src, frames))
-                                continue
+                    elif lab.startswith("*"):
+                        # decided earlier as "one of the remaining variants" (`matches!(op, A(..))`
+                        # not taken, then `match op { A(..) | B(..) => .. }`): fork over the explicit
+                        # arms it overlaps here, whether or not this switch has a live fallthrough
+                        labs = set(lab[1:].split("|")) if len(lab) > 1 else set()
+                        if labs and labs & explicit:
+                            for l2, tb in outcomes:
+                                if l2 in labs and tb in succs:
+                                    # the earlier "one of the rest" is now known exactly
+                                    stack.append((tb, env, consts, [(dk, l2) if dk == key else (dk, dv) for (dk, dv) in decisions], visits, path, discr_src, frames))
+                            if ow_live and labs - explicit:
+                                stack.append((ow, env, consts, decisions, visits, path, discr_src, frames))
+                        elif ow_live:
+                            stack.append((ow, env, consts, decisions, visits, path, discr_src, frames))
+                    elif ow_live and lab not in explicit:
+                        # a single remaining variant decided earlier as 'X'
                         stack.append((ow, env, consts, decisions, visits, path, discr_src, frames))
                     continue
                 for lab, tb in outcomes:
